@@ -36,6 +36,8 @@ OUT_BODY = GEN / "Sha256Body.lean"
 OUT_PROOFS = GEN / "Sha256BodyProofs.lean"
 LAST_STATUS = {}
 UNROLL2 = "_SHA256_UNROLL2"
+UNROLL1 = "_SHA256_UNROLL"
+OUT_U1 = GEN / "Sha256U1.lean"
 
 
 class Untranslatable(Exception):
@@ -1467,8 +1469,9 @@ def generate(repo, defines=(), ns="Sha256", suffix="", want_body=False):
     raw = preprocess(repo, defines, directives_only=True)
     raw = re.sub(r"^[ \t]*#[^\n]*(\\\n[^\n]*)*", "", strip_comments(raw), flags=re.M)
     unroll2 = UNROLL2 in defs
-    if unroll2 != (UNROLL2 in defines):
-        raise Untranslatable(f"{UNROLL2} is defined by the sources themselves: the rolled configuration the model is proved against does not exist any more")
+    for mac in (UNROLL2, UNROLL1):
+        if (mac in defs) != (mac in defines):
+            raise Untranslatable(f"{mac} is defined by the sources themselves: the rolled configuration the model is proved against does not exist any more")
     m = re.search(r"Sha256::Private::K\s*\[\s*64\s*\]\s*=\s*\{(.*?)\}\s*;", code, re.S)
     if not m:
         raise Untranslatable("table Sha256::Private::K[64] not found")
@@ -1576,6 +1579,33 @@ def generate(repo, defines=(), ns="Sha256", suffix="", want_body=False):
     return "".join(out)
 
 
+def diff_only(text, base, ns, base_ns):
+    """a further build configuration as a delta of the base configuration: every definition whose generated text is
+    identical to the base file's is dropped and taken from there (`open`), only what differs is kept"""
+    def blocks(t):
+        body = t.split("\n", 3)[3] if t.startswith("--") else t
+        return [b for b in re.split(r"\n\n+", body) if b.strip()]
+
+    have = set(blocks(base))
+    all_blocks = [b for b in blocks(text) if not b.startswith("end ") and "macro \"sha_macro_unfold" not in b]
+    name_of = lambda b: (re.search(r"^(?:def|structure)\s+(\w+)", b, re.M) or [None, None])[1]
+    keep = [b for b in all_blocks if b not in have]
+    # a definition that is the same text but mentions a definition that differs is a different function: keep it too
+    changed = True
+    while changed:
+        changed = False
+        names = {name_of(b) for b in keep} - {None}
+        for b in all_blocks:
+            code = re.sub(r"/--.*?-/", "", b, flags=re.S).split(":=", 1)[-1]
+            if b not in keep and any(re.search(rf"\b{re.escape(n)}\b", code) for n in names):
+                keep.append(b)
+                changed = True
+    keep = [b for b in all_blocks if b in keep]
+    return (text.split("\n", 1)[0] + "\n-- Only what differs from Sha256Tables.lean is defined here; everything else is that file's.\n"
+            f"import Nstd.Generated.Sha256Tables\nset_option linter.unusedVariables false\nnamespace Nstd.Generated.{ns}\nopen Nstd.Generated.{base_ns}\n\n" +
+            "\n\n".join(keep) + f"\n\nend Nstd.Generated.{ns}\n")
+
+
 def write_if_changed(path, text):
     path.parent.mkdir(parents=True, exist_ok=True)
     if not path.exists() or path.read_text() != text:
@@ -1590,16 +1620,18 @@ def run(repo=None):
     try:
         text, body, proofs, status = generate(repo, want_body=True)
         text2 = generate(repo, defines=(UNROLL2,), ns="Sha256U2", suffix="_u2")
+        text1 = diff_only(generate(repo, defines=(UNROLL1,), ns="Sha256U1", suffix="_u1"), text, "Sha256U1", "Sha256")
     except Untranslatable as ex:
         return False, f"gen_sha: {ex}"
     write_if_changed(OUT, text)
     write_if_changed(OUT_U2, text2)
+    write_if_changed(OUT_U1, text1)
     write_if_changed(OUT_BODY, body)
     write_if_changed(OUT_PROOFS, proofs)
     global LAST_STATUS
     LAST_STATUS = status
     fb = "; ".join(f"{n} NOT translated ({r})" for n, r in status.items() if r is not None)
-    return True, hashlib.sha1((text + text2 + body + proofs).encode()).hexdigest()[:12] + ("  [" + fb + "]" if fb else "")
+    return True, hashlib.sha1((text + text2 + text1 + body + proofs).encode()).hexdigest()[:12] + ("  [" + fb + "]" if fb else "")
 
 
 def gen(ctx):
